@@ -2,6 +2,9 @@ import argparse
 import importlib
 import os
 import sys
+import faulthandler
+import signal
+faulthandler.register(signal.SIGUSR1, all_threads=True, chain=False)   # kill -USR1 <pid>: Python stack to stderr (development aid)
 
 
 def main():
